@@ -23,14 +23,14 @@ RULE = ('simulated libraries with known truth: 1-8 cells, 1-40 sites on both str
         'true molecule of >=2 fragments and at least two molecules at one site; distinct = distinct (library seed, configuration).')
 ASSUMPTIONS = ['the simulator is the truth (cell, site, strand, UMI by construction)',
                'for hamming>0 / radius>0 only soundness is demanded (chain linkage), for hamming 0 and radius 0 exact equality of the partition']
-MIN_NONTRIVIAL = {'quick': 60, 'thorough': 600}
+MIN_NONTRIVIAL = {'quick': 60, 'thorough': 2000}
 REQUIRED_MONITORS = ['hook:Molecule.write_tags', 'partition:exact_compared', 'partition:soundness_checked', 'tags:molecules_checked',
                      'history:input_with_duplicate_bits', 'history:retagged', 'cli:records_checked', 'cap:overflow_molecules']
 SHARD_TIMEOUT = {'quick': 900, 'thorough': 5400}
 
 
 def gen_cases(tier, seed):
-    n = 160 if tier == 'quick' else 1200
+    n = 160 if tier == 'quick' else 6000
     return [{'i': i, 'seed': seed} for i in range(n)]
 
 
